@@ -6,6 +6,7 @@ Fixpoint gv_equiv (a b : gv) {struct a} : bool :=
   | GP x, GP y => cval_eqb x y
   | GIfaceNil, GIfaceNil | GPtrNil, GPtrNil | GCfgNil, GCfgNil => true
   | GIfaceData x, GIfaceData y => otree_eqb x y
+  | GPtr GPtrNil, GPtrNil | GPtrNil, GPtr GPtrNil => true      (* a pointer to a nil pointer is nil *)
   | GPtr x, GPtr y => gv_equiv x y
   | (GSliceNil | GSlice []), (GSliceNil | GSlice []) => true
   | (GMapNil | GMapV []), (GMapNil | GMapV []) => true
@@ -38,6 +39,7 @@ Fixpoint gv_equiv_t (t : ty) (a b : gv) {struct t} : bool :=
        | [], [], [] => true
        | _, _, _ => false
        end) fs l1 l2
+  | TPtr _, GPtr GPtrNil, GPtrNil | TPtr _, GPtrNil, GPtr GPtrNil => true
   | TPtr e, GPtr x, GPtr y => gv_equiv_t e x y
   | TSlice e, GSlice l1, GSlice l2 | TArray _ e, GArr l1, GArr l2 =>
     (fix go (l1 l2 : list gv) : bool :=
